@@ -303,9 +303,12 @@ func runC11(c *mon.Ctx) {
 		}
 		st := g.Style
 		st.TextTricks = 0
+		inContext := r.IntN(3) == 0
 		mkSP := func() (*saml2.SAMLServiceProvider, *sim.Cert) {
 			sp, _, _ := NewSP(w.Now, signer)
 			sp.ValidateEncryptionCert = (k/len(kcs))%2 == 1 // every certificate that decrypts here is inside its validity period
+			// both twins are presented uncompressed: the decompression limit, however small, does not concern them
+			sp.MaximumDecompressedBodySize = []int64{0, 0, 1, 1000, 4096}[k%5]
 			to := kc.mk(w, sp)
 			return sp, to
 		}
@@ -324,13 +327,16 @@ func runC11(c *mon.Ctx) {
 			if r.IntN(2) == 0 {
 				a.Enc.Recipient = to
 			}
+			// the plaintext is the assertion's octets as they stand in the twin (prefixes declared on the Response
+			// are not declared again), as XML-Enc's "parse in the context of the parent" allows
+			a.Enc.InContext = inContext
 		}
 		encXML, err := sim.BuildResponse(g.Rec, st)
 		if err != nil {
 			cs.Inconclusive("simulator-error")
 			continue
 		}
-		cs.Desc("keycfg=%s %s pad=%d respSigned=%v n=%d", kc.name, g.Rec.Assertions[0].Enc, len(pad), g.Rec.Sig != nil, len(g.Rec.Assertions))
+		cs.Desc("keycfg=%s %s pad=%d respSigned=%v n=%d inContext=%v", kc.name, g.Rec.Assertions[0].Enc, len(pad), g.Rec.Sig != nil, len(g.Rec.Assertions), inContext)
 		cs.Input([]byte(encXML))
 		spE, _ := mkSP()
 		rp, perr := spP.ValidateEncodedResponse(sim.Encode(plainXML, sim.RawLevel))
@@ -342,6 +348,12 @@ func runC11(c *mon.Ctx) {
 		}
 		if eerr != nil {
 			cs.Outcome("encrypted-rejected")
+			if inContext && g.Rec.Sig != nil && g.Rec.Sig.C14N.Alg == "exc" && strings.Contains(eerr.Error(), "expected element <Assertion> in name space") {
+				// K6: the Response signature's exclusive canonicalisation drops the root's unused prefix declarations from
+				// the verified tree, so a decrypted assertion that relies on them no longer resolves its prefix
+				cs.Violation("encrypted-twin-rejected:in-context-plaintext-under-exc-signed-response", "plaintext twin accepted, encrypted twin (plaintext = the assertion's octets as they stand in the twin, Response signed with exclusive c14n) rejected: %v", eerr)
+				continue
+			}
 			cs.Violation("encrypted-twin-rejected:"+kc.name, "plaintext twin accepted, encrypted twin rejected (key config %s): %v", kc.name, eerr)
 			continue
 		}
